@@ -1454,6 +1454,41 @@ def _o_kge(stats, item):
     return out
 
 
+def _o_dtype(stats, item):
+    """integer arguments handed over as 8/16-bit numpy arrays must give what python ints give (the property quantifies over
+    array arguments, the docstrings say `array_like; integer`).  On the unchanged tree they do not: `_run_brentq` doubles its
+    bracket in the dtype of r (`b = 2 * a` wraps around), and `np.sqrt` of an int8/uint8 array is a float16"""
+    out = []
+    fn, dt, p, c, v = item["fn"], np.dtype(item["dtype"]), item["p"], item["c"], item["value"]
+    inp = dict(item)
+    arr = np.array([v], dtype=dt)
+    if int(arr[0]) != v:
+        return out
+    if fn in ("ksingle", "kdouble"):
+        ref = _call(getattr(stats, fn), p, c, v)
+        got = _call(getattr(stats, fn), p, c, arr)
+        if isinstance(ref, str):
+            return out
+        if isinstance(got, str) or np.shape(got) != (1,) or not abs(float(got[0]) - float(ref)) <= 1e-9 * max(1.0, abs(float(ref))):
+            out.append({"family": "kfactor-narrow-int-sample-size-array",
+                        "what": "%s(p, c, n) with n an %s array differs from the same call with python ints" % (fn, dt.name),
+                        "input": inp, "observed": got if isinstance(got, str) else np.asarray(got).tolist(), "required": [float(ref)]})
+        return out
+    which = fn
+    kw = {"c": dict(p=p, n=item.get("n", 50)), "r": dict(p=p, c=c), "n": dict(p=p, c=c), "p": dict(c=c, n=item.get("n", 50))}[which]
+    key = "r" if which in ("c", "n", "p") else "n"
+    ref = _call(stats.order_stats, which, **dict(kw, **{key: v}))
+    got = _call(stats.order_stats, which, **dict(kw, **{key: arr}))
+    if isinstance(ref, str):
+        return out
+    ok = (not isinstance(got, str)) and np.shape(got) == (1,) and abs(float(np.asarray(got)[0]) - float(ref)) <= 1e-9
+    if not ok:
+        out.append({"family": "order-stats-%s-narrow-int-%s-array" % (which, "rank" if key == "r" else "sample-size"),
+                    "what": "order_stats('%s') with %s an %s array differs from the same call with python ints" % (which, key, dt.name),
+                    "input": inp, "observed": got if isinstance(got, str) else np.asarray(got).tolist(), "required": [ref if isinstance(ref, int) else float(ref)]})
+    return out
+
+
 def _run_oracle(stats, item, rng=None):
     kind = item["kind"]
     if kind == "order":
@@ -1480,6 +1515,8 @@ def _run_oracle(stats, item, rng=None):
         return _o_nctasym(stats, item)
     if kind == "kge":
         return _o_kge(stats, item)
+    if kind == "dtype":
+        return _o_dtype(stats, item)
     return []
 
 
@@ -1541,6 +1578,16 @@ def search(ctx, hints):
         items.append({"kind": "nctasym", "c": c, "df": df, "nc": nc})
     for p, c, n in _gen_k(ctx, ctx.pick(150, 800)):
         items.append({"kind": "kge", "p": p, "c": c, "n": n})
+    # integer arguments as narrow numpy arrays
+    for dt in ("uint8", "int8", "int16", "int32"):
+        items.append({"kind": "dtype", "fn": "n", "dtype": dt, "p": 0.99, "c": 0.9, "value": 1})
+        items.append({"kind": "dtype", "fn": "n", "dtype": dt, "p": 0.9, "c": 0.5, "value": rng.randint(1, 5)})
+        for v in (15, 21, rng.randint(2, 100)):
+            items.append({"kind": "dtype", "fn": "ksingle", "dtype": dt, "p": 0.99, "c": 0.9, "value": v})
+            items.append({"kind": "dtype", "fn": "kdouble", "dtype": dt, "p": 0.99, "c": 0.9, "value": v})
+        items.append({"kind": "dtype", "fn": "c", "dtype": dt, "p": 0.9, "c": 0.9, "n": 50, "value": rng.randint(1, 6)})
+        items.append({"kind": "dtype", "fn": "p", "dtype": dt, "p": 0.9, "c": 0.9, "n": 50, "value": rng.randint(1, 6)})
+        items.append({"kind": "dtype", "fn": "r", "dtype": dt, "p": 0.9, "c": 0.9, "value": rng.randint(5, 120)})
     for it in items:
         ctx.count("oracle:" + it["kind"])
         for f in _run_oracle(stats, it, rng):
